@@ -232,6 +232,18 @@ Proof.
   - destruct (named_summary_consistent element_types d s k i t v Nts Nd Sub U H H0 H1) as [_ [A _]]. exact A.
 Qed.
 
+(* filter_with_ids of the collection of the tree under test: the result holds
+   exactly the requested elements that exist, each under the key of its block
+   with its own connectivity (no element of any type is dropped or retyped) *)
+Theorem C08_collection_filter_tree_decided : forall (V : Type) (d0 : @edict V) upds d s l i t v,
+  build element_types d0 upds = Some d -> update_self_named element_types d = Some s ->
+  (In (i, (t, v)) (kflatten (efilter_named element_types d l)) <-> In i l /\ In (i, (t, v)) (kflatten d)).
+Proof.
+  intros V d0 upds d s l i t v B U. destruct C08_element_types_table as [Nts Unk].
+  destruct (build_ok element_types d0 upds d Unk B) as [Nd Sub].
+  apply (efilter_named_In element_types d s l i t v Nts Nd Sub U).
+Qed.
+
 (* non-vacuity: blocks handed in out of table order with interleaved, unsorted,
    large ids, one of them a ragged 'polyhedron' block, then an update *)
 Example C08_collection_nonvacuous :
@@ -243,7 +255,9 @@ Example C08_collection_nonvacuous :
     n_ids s = [12; 25; 33; 40; 2000000000000]%Z /\
     n_types s = ["polyhedron"; "hex"; "tet"; "polyhedron"; "tet"]%string /\
     keys element_types d = ["tet"; "hex"; "polyhedron"]%string /\
-    validate_keys element_types (("pt"%string, []) :: d0) = None.
+    validate_keys element_types (("pt"%string, []) :: d0) = None /\
+    efilter_named element_types d [40; 8; 25]%Z =
+      [("hex"%string, [(25, [1; 2; 3; 4; 5; 6; 7; 8])]); ("polyhedron"%string, [(40, [11; 3; 7; 5; 2])])]%Z.
 Proof. do 2 eexists. vm_compute. repeat split; reflexivity. Qed.
 
 (* a missing refresh is a violation: one-step witnesses computed by the model *)
@@ -299,3 +313,4 @@ Print Assumptions C08_summary_sorted_complete.
 Print Assumptions C08_tree_decided.
 Print Assumptions C08_collection_tree_decided.
 Print Assumptions C08_collection_filter_exact.
+Print Assumptions C08_collection_filter_tree_decided.
